@@ -1,5 +1,6 @@
 # Final verdict protocol shared by all checks.
 import json
+import os
 import sys
 
 import render
@@ -24,6 +25,19 @@ def finish(ctx, prop, viol, known, other, runner, coverage, assumptions, level="
             agg[k] = agg.get(k, 0) + 1
         for (t, w), n in sorted(agg.items()):
             log("note: %d rejection(s) tagged %s (%s) outside this property's claim" % (n, t, w))
+    if os.environ.get("VERIF_LEARN"):
+        # maintenance mode (never used by a registered command): dump unexplained rejections for bin/learn
+        from findings import entry_hash, case_key
+        import mechanisms
+        with open(os.environ["VERIF_LEARN"], "a") as f:
+            for r in list(viol) + list(other):
+                c = byid.get(r.get("id"))
+                st = c["stmts"][r["i"] - 1] if c and 0 < r.get("i", 0) <= len(c["stmts"]) else None
+                f.write(json.dumps({"h": entry_hash(r, c), "key": case_key(r, c), "mech": mechanisms.classify(r, st, r.get("bits", 0)),
+                                    "tags": r.get("tags"), "why": r.get("why"), "obs": r.get("obs"), "psz": r.get("psz"),
+                                    "prop": prop}) + "\n")
+        log("learn mode: %d unexplained rejections dumped" % (len(viol) + len(other)))
+        viol = []
     rc = 0
     shown = 0
     for r in viol:
